@@ -23,16 +23,19 @@ GO_FAMILIES = "happy,crash,subsets,fault,recrash,instances,startup,dedup,tamper,
 # formulas of other ids that a property also reports (none: strict attribution)
 PREFIX = {p: p + "." for p in FAMILY}
 
+# property -> tier -> list of (cfg, expected) where expected is "ok" or the name
+# of the formula the configuration is expected to refute (a documented finding
+# of the design, reproduced on the code by a recorded scenario)
 MODEL_CFG = {
-    # property -> (quick cfg, thorough cfg)
-    "C01": ("MC_q_single.cfg", "MC_single.cfg"),
-    "C02": ("MC_q_single.cfg", "MC_single.cfg"),
-    "C03": ("MC_q_single.cfg", "MC_single.cfg"),
-    "C04": ("MC_q_single.cfg", "MC_single.cfg"),
-    "C06": ("MC_q_two.cfg", "MC_two.cfg"),
-    "C07": ("MC_q_dedup.cfg", "MC_dedup.cfg"),
-    "C08": ("MC_q_single.cfg", "MC_single.cfg"),
-    "C17": ("MC_q_pool.cfg", "MC_pool.cfg"),
+    "C01": {"quick": [("MC_q_single.cfg", "ok")], "thorough": [("MC_single.cfg", "ok")]},
+    "C02": {"quick": [("MC_q_single.cfg", "ok")], "thorough": [("MC_single.cfg", "ok")]},
+    "C03": {"quick": [("MC_q_single.cfg", "ok")], "thorough": [("MC_single.cfg", "ok")]},
+    "C04": {"quick": [("MC_q_single.cfg", "ok")], "thorough": [("MC_single.cfg", "ok")]},
+    "C06": {"quick": [("MC_q_two.cfg", "ok"), ("MC_two_f3.cfg", "PubAppendOnly")],
+            "thorough": [("MC_two.cfg", "ok"), ("MC_two_f3.cfg", "PubAppendOnly")]},
+    "C07": {"quick": [("MC_q_dedup.cfg", "ok")], "thorough": [("MC_dedup.cfg", "ok")]},
+    "C08": {"quick": [("MC_q_single.cfg", "ok")], "thorough": [("MC_single.cfg", "ok")]},
+    "C17": {"quick": [("MC_q_pool.cfg", "ok")], "thorough": [("MC_pool.cfg", "ok"), ("MC_live.cfg", "ok")]},
 }
 
 
@@ -159,21 +162,48 @@ def scenario_lines(d, name):
 
 
 def model_check(prop, tier, wd):
-    cfgq, cfgt = MODEL_CFG[prop]
-    cfg = cfgt if tier == "thorough" else cfgq
-    if not os.path.exists(os.path.join(vlib.SPEC, cfg)):
+    """Runs the property's bounded configurations of Sunlight.tla. Results are
+    cached per (spec sources, cfg): the model does not depend on the tree under
+    test."""
+    runs = []
+    cdir = os.path.join(vlib.WORK, "modelcache")
+    os.makedirs(cdir, exist_ok=True)
+    spechash = vlib.hash_tree([vlib.SPEC])
+    for cfg, expect in MODEL_CFG[prop][tier]:
+        if not os.path.exists(os.path.join(vlib.SPEC, cfg)):
+            continue
+        cpath = os.path.join(cdir, "%s-%s.json" % (cfg, spechash))
+        if os.path.exists(cpath) and not os.environ.get("VERIF_NO_MODEL_CACHE"):
+            res = json.load(open(cpath))
+            res["cached"] = True
+            runs.append(res)
+            continue
+        t0 = time.time()
+        rc, out, td = vlib.tlc("Sunlight.tla", cfg, wd, workers=vlib.NCPU, timeout=3 * 3600, xmx="14g")
+        states, trans = vlib.tlc_stats(out)
+        res = {"cfg": cfg, "states": states, "transitions": trans, "wall_s": round(time.time() - t0, 1),
+               "expected": expect, "cached": False}
+        m = re.search(r"(Invariant|Temporal property|Action property) (\S+) (is|was) violated", out)
+        if expect == "ok":
+            res["ok"] = rc == 0 and not m
+        else:
+            res["ok"] = bool(m) and m.group(2) == expect
+            res["refuted"] = m.group(2) if m else None
+        if not res["ok"]:
+            res["error"] = m.group(0) if m else "rc=%d" % rc
+            op = os.path.join(vlib.WORK, "model-%s.out" % cfg)
+            open(op, "w").write(out)
+            res["output"] = op
+        else:
+            json.dump(res, open(cpath, "w"))
+        shutil.rmtree(td, ignore_errors=True)
+        runs.append(res)
+    if not runs:
         return None
-    t0 = time.time()
-    rc, out, td = vlib.tlc("Sunlight.tla", cfg, wd, workers=vlib.NCPU, timeout=3 * 3600, xmx="14g")
-    states, trans = vlib.tlc_stats(out)
-    res = {"cfg": cfg, "states": states, "transitions": trans, "wall_s": round(time.time() - t0, 1), "ok": rc == 0}
-    if rc != 0:
-        m = re.search(r"(Invariant|Temporal|Action property) (\S+) is violated|Error: (.*)", out)
-        res["error"] = m.group(0) if m else "rc=%d" % rc
-        open(os.path.join(wd, "model-%s.out" % cfg), "w").write(out)
-        res["output"] = os.path.join(wd, "model-%s.out" % cfg)
-    shutil.rmtree(td, ignore_errors=True)
-    return res
+    return {"cfg": ",".join(r["cfg"] for r in runs), "states": sum(r["states"] for r in runs),
+            "transitions": sum(r["transitions"] for r in runs), "ok": all(r["ok"] for r in runs),
+            "runs": runs, "error": "; ".join(r.get("error", "") for r in runs if not r["ok"]),
+            "output": "; ".join(r.get("output", "") for r in runs if not r["ok"])}
 
 
 LEVEL_TEXT = "model_checking"
@@ -188,11 +218,19 @@ def run(prop, tier):
         d, info = record_corpus(tier, sd)
         reps, tstates, ttrans, _ = validate(d, wd)
         pref = PREFIX[prop]
+
+        def relevant(f, name):
+            if f.startswith(pref):
+                return True
+            # the multi-instance property also owns append-only history and
+            # complete storage in the scenarios with several instances
+            return prop == "C06" and re.match(r"(instances|startup)/", name) and \
+                f in ("C01.PubAppendOnly", "C01.LockAppendOnly", "C04.PubBacked", "C01.PublishedWasLocked")
         nscen = len(reps)
         samples = []
         perFormula = {}
         for name, viols in reps:
-            mine = [(f, l) for f, l in viols if f.startswith(pref)]
+            mine = [(f, l) for f, l in viols if relevant(f, name)]
             for f, line in mine:
                 perFormula[f] = perFormula.get(f, 0) + 1
                 if perFormula[f] > 3 and not vlib.match_finding(prop, f, name):
